@@ -433,3 +433,54 @@ package corebgp
 //@   ensures [no_as_number_lost] err == nil ==> len(a.ASSet) + len(a.ASSequence) == (len(b) - 2 * nseg) / 4 && len(a.ASSet) + len(a.ASSequence) == total
 //@   ensures [fault_at_parse_position] err != nil && wellKnownFlags(flags) && len(b) >= 6 && len(b) % 2 == 0 ==> segChain(b, offs, nseg, fpos) && 0 <= fpos && fpos < len(b) && !segOK(b, fpos) && (isTAW(err, 2, 3, 11) || isTAW(err, 2, 3, 5))
 //@   modifies *a
+
+// ---- UpdateNotificationFromErr (C17) ----
+
+//@ func Notification.AsSessionReset returns (r)
+//@   ensures [self] r == n
+//@ func TreatAsWithdrawUpdateErr.AsSessionReset returns (r)
+//@   ensures [non_nil] r != nil
+//@   ensures [own_notification]  t.Notification != nil ==> r == t.Notification
+//@   ensures [generic_otherwise] t.Notification == nil ==> fresh(r) && r.Code == 3 && r.Subcode == 0 && len(r.Data) == 0
+//@ func AttrDiscardUpdateErr.AsSessionReset returns (r)
+//@   ensures [non_nil] r != nil
+//@   ensures [own_notification]  a.Notification != nil ==> r == a.Notification
+//@   ensures [generic_otherwise] a.Notification == nil ==> fresh(r) && r.Code == 3 && r.Subcode == 0 && len(r.Data) == 0
+
+// The recursive tree walk. Proved here: the four "first found" variables are
+// only ever set from nil (earliest first among equals), a *Notification /
+// treat-as-withdraw / attribute-discard value is only stored in its own
+// variable, and the walk of a nil error changes nothing. Recursive calls use
+// this same contract (partial correctness).
+//@ func UpdateNotificationFromErr$1
+//@   requires [ue_foreign] ue != nil ==> !isType(ue, *Notification) && !isType(ue, *TreatAsWithdrawUpdateErr) && !isType(ue, *AttrDiscardUpdateErr)
+//@   ensures  [ue_foreign] ue != nil ==> !isType(ue, *Notification) && !isType(ue, *TreatAsWithdrawUpdateErr) && !isType(ue, *AttrDiscardUpdateErr)
+//@   ensures  [notification_is_err] isType(err, *Notification) && old(n) == nil ==> n == asType(err, *Notification)
+//@   loop#0 invariant [kept] (old(n) != nil ==> n == old(n)) && (old(taw) != nil ==> taw == old(taw)) && (old(ad) != nil ==> ad == old(ad)) && (old(ue) != nil ==> ue == old(ue))
+//@   loop#0 invariant [found] (isType(x, *TreatAsWithdrawUpdateErr) && asType(x, *TreatAsWithdrawUpdateErr) != nil ==> taw != nil) && (isType(x, *AttrDiscardUpdateErr) && asType(x, *AttrDiscardUpdateErr) != nil ==> ad != nil)
+//@   loop#0 invariant [ue_foreign] ue != nil ==> !isType(ue, *Notification) && !isType(ue, *TreatAsWithdrawUpdateErr) && !isType(ue, *AttrDiscardUpdateErr)
+//@   modifies &n, &taw, &ad, &ue
+//@   ensures [first_kept_n]   old(n) != nil ==> n == old(n)
+//@   ensures [first_kept_taw] old(taw) != nil ==> taw == old(taw)
+//@   ensures [first_kept_ad]  old(ad) != nil ==> ad == old(ad)
+//@   ensures [first_kept_ue]  old(ue) != nil ==> ue == old(ue)
+//@   ensures [notification_found] isType(err, *Notification) && asType(err, *Notification) != nil ==> n != nil
+//@   ensures [taw_found] isType(err, *TreatAsWithdrawUpdateErr) && asType(err, *TreatAsWithdrawUpdateErr) != nil ==> taw != nil
+//@   ensures [ad_found]  isType(err, *AttrDiscardUpdateErr) && asType(err, *AttrDiscardUpdateErr) != nil ==> ad != nil
+//@   ensures [nil_walk]  err == nil ==> n == old(n) && taw == old(taw) && ad == old(ad) && ue == old(ue)
+
+//@ func UpdateNotificationFromErr returns (r)
+//@   ghostvar gn int = 0
+//@   ghostvar gtaw int = 0
+//@   ghostvar gad int = 0
+//@   ghostvar gueT int = 0
+//@   at call unwrap#0 after set gn = n
+//@   at call unwrap#0 after set gtaw = taw
+//@   at call unwrap#0 after set gad = ad
+//@   at call unwrap#0 after set gueT = ue.tag
+//@   ensures [nil_to_nil]  err == nil ==> r == nil
+//@   ensures [severity_1_notification] err != nil && gn != 0 ==> r == asPtr(gn, *Notification)
+//@   ensures [severity_2_withdraw] err != nil && gn == 0 && gtaw != 0 ==> r != nil && (asPtr(gtaw, *TreatAsWithdrawUpdateErr).Notification != nil ? r == asPtr(gtaw, *TreatAsWithdrawUpdateErr).Notification : r.Code == 3 && r.Subcode == 0 && len(r.Data) == 0)
+//@   ensures [severity_3_discard]  err != nil && gn == 0 && gtaw == 0 && gad != 0 ==> r != nil && (asPtr(gad, *AttrDiscardUpdateErr).Notification != nil ? r == asPtr(gad, *AttrDiscardUpdateErr).Notification : r.Code == 3 && r.Subcode == 0 && len(r.Data) == 0)
+//@   ensures [severity_5_generic]  err != nil && gn == 0 && gtaw == 0 && gad == 0 && gueT == 0 ==> r != nil && r.Code == 3 && r.Subcode == 0 && len(r.Data) == 0
+//@   ensures [notification_wins] isType(err, *Notification) && asType(err, *Notification) != nil ==> r == asType(err, *Notification)
